@@ -26,7 +26,12 @@ def concretize(s, ctx):
             c = ctx.concrete_int(g.length)
             if c is not None:
                 if c > 0:
-                    segs.append(Elems([g.at(i) for i in range(c)]))
+                    ts = [g.at(i) for i in range(c)]
+                    if g.elemfact is not None:
+                        for t in ts:
+                            if isz(t):
+                                ctx.fact(g.elemfact(t))
+                    segs.append(Elems(ts))
                 continue
         segs.append(g)
     return Seq(s.kind, segs, s.tag)
@@ -128,7 +133,12 @@ def seq_slice(s, lo, hi, ctx):
                 if ctx.entails(zi(L) >= need):
                     a0 = max(ca - stc, 0)
                     if a0 < need:
-                        out.append(Elems([g.at(i) for i in range(a0, need)]))
+                        ts = [g.at(i) for i in range(a0, need)]
+                        if g.elemfact is not None:
+                            for t in ts:
+                                if isz(t):
+                                    ctx.fact(g.elemfact(t))
+                        out.append(Elems(ts))
                     break
                 ok = False
                 break
